@@ -12,22 +12,23 @@ from chython.containers.bonds import Bond
 ID = 'C06'
 RULE = ('exhaustive: every labelled connected graph (degree <= 4) with <= 6 atoms (quick) / 7 atoms and <= 5 rings, 8 '
         'atoms of degree >= 2 and <= 3 rings (thorough), built as molecules, some edges turned into coordinate bonds; '
+        'dense polycycles (cage cores grown by short bridges, random 8-12 atom graphs with 3-7 rings), '
         'random fused/spiro/bridged assemblies, macrocycles, corpus molecules, test/cycle.sdf, each also renumbered; '
         'oracle: own minimum cycle basis (Horton candidates + GF(2) elimination), simple-cycle / independence checks, '
         'cut-edge finder for bond marks; non-trivial = >= 2 rings, distinct by labelled edge set / canonical string')
 ASSUMPTIONS = ['CachedMethods compatibility shim',
                'gap predicates (theta with three bridges >= 3 bonds; dense cage) applied only after a mismatch']
 CONFIG = {
-    'quick': {'shards': 16, 'budget_s': 120, 'nmax': 6, 'n7_sample': 12000, 'n_assembly': 1500, 'n_corpus': 500,
+    'quick': {'shards': 16, 'budget_s': 120, 'nmax': 6, 'n7_sample': 12000, 'n_assembly': 1500, 'n_corpus': 500, 'n_dense': 6000,
               'exhaustive_subspaces': ['labelled connected graphs with <= 6 atoms, degree <= 4, <= 5 rings'],
               'floors': {'evaluations': 20000, 'distinct_nontrivial': 5000, 'graphs.exhaustive': 15000,
-                         'oracle.mcb-compared': 20000, 'marks.bonds-checked': 50000, 'renumbered': 3000}},
-    'thorough': {'shards': 16, 'budget_s': 1500, 'nmax': 7, 'n7_sample': 0, 'n8': True, 'n_assembly': 40000,
+                         'oracle.mcb-compared': 20000, 'marks.bonds-checked': 50000, 'renumbered': 3000, 'graphs.dense': 4000}},
+    'thorough': {'shards': 16, 'budget_s': 1500, 'nmax': 7, 'n7_sample': 0, 'n8': True, 'n_assembly': 40000, 'n_dense': 150000,
                  'n_corpus': 4200,
                  'exhaustive_subspaces': ['labelled connected graphs with <= 7 atoms, degree <= 4, <= 5 rings',
                                           'labelled connected graphs with 8 atoms, degrees 2..4, <= 3 rings'],
                  'floors': {'evaluations': 700000, 'distinct_nontrivial': 100000, 'graphs.exhaustive': 700000,
-                            'oracle.mcb-compared': 700000, 'marks.bonds-checked': 1000000, 'renumbered': 50000}},
+                            'oracle.mcb-compared': 700000, 'marks.bonds-checked': 1000000, 'renumbered': 50000, 'graphs.dense': 100000}},
 }
 
 
@@ -186,6 +187,69 @@ def connected(n, edges):
     return len(seen) == n
 
 
+CORES = {
+    'bicyclo[1.1.1]pentane': (5, [(1, 2), (2, 3), (1, 4), (4, 3), (1, 5), (5, 3)]),
+    'bicyclo[2.1.1]hexane': (6, [(1, 2), (2, 3), (3, 4), (1, 5), (5, 4), (1, 6), (6, 4)]),
+    'bicyclo[2.2.1]heptane': (7, [(1, 2), (2, 3), (3, 4), (4, 5), (5, 6), (6, 1), (1, 7), (7, 4)]),
+    'bicyclo[2.2.2]octane': (8, [(1, 2), (2, 3), (3, 4), (4, 5), (5, 6), (6, 1), (1, 7), (7, 8), (8, 4)]),
+    'bicyclo[1.1.0]butane': (4, [(1, 2), (2, 3), (3, 4), (4, 1), (1, 3)]),
+    'tetrahedrane': (4, [(1, 2), (1, 3), (1, 4), (2, 3), (2, 4), (3, 4)]),
+    'prismane': (6, [(1, 2), (2, 3), (3, 1), (4, 5), (5, 6), (6, 4), (1, 4), (2, 5), (3, 6)]),
+    'cubane': (8, [(1, 2), (2, 3), (3, 4), (4, 1), (5, 6), (6, 7), (7, 8), (8, 5), (1, 5), (2, 6), (3, 7), (4, 8)]),
+    '[1.1.1]propellane': (5, [(1, 2), (2, 3), (1, 4), (4, 3), (1, 5), (5, 3), (1, 3)]),
+    'spiropentane': (5, [(1, 2), (2, 3), (3, 1), (3, 4), (4, 5), (5, 3)]),
+    'cyclobutane': (4, [(1, 2), (2, 3), (3, 4), (4, 1)]),
+}
+
+
+def dense_graph(rng):
+    """(n, sorted edge list): a cage core grown by short bridges between existing atoms, or a random tree plus random chords"""
+    if rng.random() < .6:
+        n, edges = CORES[rng.choice(sorted(CORES))]
+        edges = {(min(a, b), max(a, b)) for a, b in edges}
+        extra = rng.randrange(1, 5)
+    else:
+        n = rng.randrange(8, 13)
+        edges = set()
+        for v in range(2, n + 1):
+            for _ in range(20):
+                u = rng.randrange(1, v)
+                if sum(1 for e in edges if u in e) < 3:
+                    edges.add((u, v))
+                    break
+            else:
+                edges.add((v - 1, v))
+        extra = rng.randrange(3, 8)
+    deg = {}
+    for a, b in edges:
+        deg[a] = deg.get(a, 0) + 1
+        deg[b] = deg.get(b, 0) + 1
+    for _ in range(extra):
+        cand = [v for v in range(1, n + 1) if deg.get(v, 0) < 4]
+        if len(cand) < 2:
+            break
+        a, b = rng.sample(cand, 2)
+        new = rng.choice((0, 0, 0, 1, 1, 2)) if n < 14 else 0
+        if not new:
+            e = (min(a, b), max(a, b))
+            if e in edges:
+                continue
+            edges.add(e)
+        else:
+            prev = a
+            for _ in range(new):
+                n += 1
+                edges.add((min(prev, n), max(prev, n)))
+                deg[n] = deg.get(n, 0) + 1 + (0 if prev == a else 0)
+                if prev != a:
+                    deg[prev] = deg.get(prev, 0) + 1
+                prev = n
+            edges.add((min(prev, b), max(prev, b)))
+        deg[a] = deg.get(a, 0) + 1
+        deg[b] = deg.get(b, 0) + 1
+    return n, sorted(edges)
+
+
 def worker(ctx):
     cfg = CONFIG[ctx.tier]
     rng = ctx.rng
@@ -232,6 +296,21 @@ def worker(ctx):
         ctx.count('graphs.sampled-n7')
         ctx.case(key=(7, tuple(edges)), nontrivial=ne - 6 >= 2)
         sizes = check_molecule(ctx, m, 'graph n=7 edges=%s' % edges)
+    # dense small polycycles beyond the exhaustive sizes: cage cores with further small rings fused / bridged onto them, and
+    # random graphs with 8-12 atoms and 3-7 independent cycles (degree <= 4); each also renumbered twice
+    for i in range(cfg['n_dense'] // ctx.nshards):
+        if ctx.out_of_time():
+            break
+        n, edges = dense_graph(rng)
+        m = build(range(1, n + 1), edges)
+        src = 'graph n=%d edges=%s' % (n, edges)
+        ctx.count('graphs.dense')
+        mu = len(edges) - n + 1
+        ctx.count('graphs.dense.rings-%s' % (mu if mu < 8 else '8+'))
+        ctx.case(key=(n, tuple(edges), ()), nontrivial=True, sample={'n': n, 'edges': edges, 'rings': mu} if rng.random() < .002 else None)
+        sizes = check_molecule(ctx, m, src)
+        for _ in range(2):
+            renumbered(ctx, m, src, sizes, rng)
     # assemblies and macrocycles
     for i in range(cfg['n_assembly'] // ctx.nshards):
         if ctx.out_of_time():
